@@ -3,7 +3,7 @@
    per-request indexes of the weighted-graph engine (internal/check/request.go), AS CODED.
 
    Abstraction level.  Strings are interned by the driver as N, order preserving where the code
-   orders them: an object "type:id" is its rank [t_obj] among all object strings of the case (so
+   orders them: an object "type:id" is its rank [rt_obj] among all object strings of the case (so
    N.ltb on ranks is strings.Compare on the strings), a user string likewise [u_str]; the parts
    the code looks at (object type; user type, "is typed wildcard", user relation) travel next to
    the rank.  Relation / condition names: 0 is the empty string.  Condition contexts are opaque
@@ -24,16 +24,16 @@ Record user := mkUser {
   u_rel  : N       (* tuple.GetRelation(user); 0 = no '#relation' part *)
 }.
 
-Record tuple := mkTuple {
-  t_obj   : N;     (* rank of the object string "type:id" *)
-  t_otype : N;     (* tuple.GetType(object) *)
-  t_rel   : N;
-  t_user  : user;
-  t_cond  : N;     (* condition name, 0 = unconditioned *)
-  t_ctx   : N      (* condition context id, 0 = none/empty *)
+Record rtuple := mkRT {
+  rt_obj   : N;     (* rank of the object string "type:id" *)
+  rt_otype : N;     (* tuple.GetType(object) *)
+  rt_rel   : N;
+  rt_user  : user;
+  rt_cond  : N;     (* condition name, 0 = unconditioned *)
+  rt_ctx   : N      (* condition context id, 0 = none/empty *)
 }.
 
-Definition store := list tuple.
+Definition store := list rtuple.
 
 Definition user_eqb (a b : user) : bool := N.eqb (u_str a) (u_str b).
 
@@ -45,8 +45,8 @@ Definition is_userset_user (u : user) : bool := is_objrel u || u_wild u.
 (* What a reader hands back: storage.TupleRecord.AsTuple for stored records and
    tuple.NewTupleKeyWithCondition for contextual tuples (NewCombinedTupleReader): a tuple whose
    condition name is empty carries no condition and therefore no context. *)
-Definition obs (t : tuple) : tuple :=
-  if N.eqb (t_cond t) 0 then mkTuple (t_obj t) (t_otype t) (t_rel t) (t_user t) 0 0 else t.
+Definition obs (t : rtuple) : rtuple :=
+  if N.eqb (rt_cond t) 0 then mkRT (rt_obj t) (rt_otype t) (rt_rel t) (rt_user t) 0 0 else t.
 
 (* ---- filters ---------------------------------------------------------------------------- *)
 
@@ -55,165 +55,176 @@ Inductive ofilter := OAny | OType (ty : N) | OFull (o : N).
 (* ReadFilter.User: "" | "type:" | a full user *)
 Inductive ufilter := UAny | UType (ty : N) | UExact (u : user).
 
-Definition obj_ok (o : ofilter) (t : tuple) : bool :=
+Definition obj_ok (o : ofilter) (t : rtuple) : bool :=
   match o with
   | OAny => true
-  | OType ty => N.eqb (t_otype t) ty
-  | OFull x => N.eqb (t_obj t) x
+  | OType ty => N.eqb (rt_otype t) ty
+  | OFull x => N.eqb (rt_obj t) x
   end.
 
-Definition rel_ok (r : N) (t : tuple) : bool := N.eqb r 0 || N.eqb (t_rel t) r.
+Definition rel_ok (r : N) (t : rtuple) : bool := N.eqb r 0 || N.eqb (rt_rel t) r.
 
-Definition usr_ok (u : ufilter) (t : tuple) : bool :=
+Definition usr_ok (u : ufilter) (t : rtuple) : bool :=
   match u with
   | UAny => true
-  | UType ty => N.eqb (u_type (t_user t)) ty
-  | UExact x => user_eqb (t_user t) x
+  | UType ty => N.eqb (u_type (rt_user t)) ty
+  | UExact x => user_eqb (rt_user t) x
   end.
 
 Definition nmem (c : N) (cs : list N) : bool := existsb (N.eqb c) cs.
 Definition null {A} (l : list A) : bool := match l with [] => true | _ => false end.
 (* Conditions: nil or empty = not constrained; 0 in the list stands for "no condition" *)
-Definition conds_ok (cs : list N) (t : tuple) : bool := null cs || nmem (t_cond t) cs.
+Definition conds_ok (cs : list N) (t : rtuple) : bool := null cs || nmem (rt_cond t) cs.
 
 Record read_filter := mkRF { rf_obj : ofilter; rf_rel : N; rf_usr : ufilter; rf_conds : list N }.
 
 (* ---- the plain store (documented meaning of the five read operations) -------------------- *)
 
-Definition read_pred (f : read_filter) (t : tuple) : bool :=
+Definition read_pred (f : read_filter) (t : rtuple) : bool :=
   obj_ok (rf_obj f) t && rel_ok (rf_rel f) t && usr_ok (rf_usr f) t && conds_ok (rf_conds f) t.
-Definition read (s : store) (f : read_filter) : list tuple := map obs (filter (read_pred f) s).
+Definition read (s : store) (f : read_filter) : list rtuple := map obs (filter (read_pred f) s).
 (* ReadPage, all pages together *)
-Definition read_page (s : store) (f : read_filter) : list tuple := read s f.
+Definition read_page (s : store) (f : read_filter) : list rtuple := read s f.
 
 Record key := mkKey { k_obj : N; k_rel : N; k_user : user }.
-Definition key_of (t : tuple) : key := mkKey (t_obj t) (t_rel t) (t_user t).
+Definition key_of (t : rtuple) : key := mkKey (rt_obj t) (rt_rel t) (rt_user t).
 Definition key_eqb (a b : key) : bool :=
   N.eqb (k_obj a) (k_obj b) && N.eqb (k_rel a) (k_rel b) && user_eqb (k_user a) (k_user b).
 
-Definition rut_pred (k : key) (cs : list N) (t : tuple) : bool := key_eqb (key_of t) k && conds_ok cs t.
-(* ReadUserTuple: the tuple with exactly this key (None = ErrNotFound) *)
-Definition read_user_tuple (s : store) (k : key) (cs : list N) : option tuple :=
+Definition rut_pred (k : key) (cs : list N) (t : rtuple) : bool := key_eqb (key_of t) k && conds_ok cs t.
+(* ReadUserTuple: the rtuple with exactly this key (None = ErrNotFound) *)
+Definition read_user_tuple (s : store) (k : key) (cs : list N) : option rtuple :=
   option_map obs (find (rut_pred k cs) s).
 
 (* AllowedUserTypeRestrictions *)
-Inductive restriction :=
-  | RRel (ty rel : N)    (* RelationReference{Type, Relation}: ty#rel *)
-  | RWild (ty : N)       (* RelationReference{Type, Wildcard}: ty:*   *)
-  | RBare (ty : N).      (* RelationReference{Type} only *)
+Inductive urestr :=
+  | URel (ty rel : N)    (* RelationReference{Type, Relation}: ty#rel *)
+  | UWild (ty : N)       (* RelationReference{Type, Wildcard}: ty:*   *)
+  | UBare (ty : N).      (* RelationReference{Type} only *)
 
-Definition restr_ok (r : restriction) (t : tuple) : bool :=
+Definition restr_ok (r : urestr) (t : rtuple) : bool :=
   match r with
-  | RRel ty rel => N.eqb (u_type (t_user t)) ty && N.eqb (u_rel (t_user t)) rel
-  | RWild ty => N.eqb (u_type (t_user t)) ty && u_wild (t_user t)
-  | RBare _ => false
+  | URel ty rel => N.eqb (u_type (rt_user t)) ty && N.eqb (u_rel (rt_user t)) rel
+  | UWild ty => N.eqb (u_type (rt_user t)) ty && u_wild (rt_user t)
+  | UBare _ => false
   end.
 
-Record usersets_filter := mkUF { uf_obj : ofilter; uf_rel : N; uf_restr : list restriction; uf_conds : list N }.
+Record usersets_filter := mkUF { uf_obj : ofilter; uf_rel : N; uf_restr : list urestr; uf_conds : list N }.
 
-Definition usersets_pred (f : usersets_filter) (t : tuple) : bool :=
-  is_userset_user (t_user t) && obj_ok (uf_obj f) t && rel_ok (uf_rel f) t &&
+Definition usersets_pred (f : usersets_filter) (t : rtuple) : bool :=
+  is_userset_user (rt_user t) && obj_ok (uf_obj f) t && rel_ok (uf_rel f) t &&
   (null (uf_restr f) || existsb (fun r => restr_ok r t) (uf_restr f)) && conds_ok (uf_conds f) t.
-Definition read_userset_tuples (s : store) (f : usersets_filter) : list tuple :=
+Definition read_userset_tuples (s : store) (f : usersets_filter) : list rtuple :=
   map obs (filter (usersets_pred f) s).
 
 (* ReadStartingWithUser; ObjectIDs: None = nil = absent (the ids are given as object ranks) *)
 Record rswu_filter := mkSF {
   sf_otype : N; sf_rel : N; sf_users : list user; sf_oids : option (list N); sf_conds : list N }.
 
-Definition oids_ok (o : option (list N)) (t : tuple) : bool :=
-  match o with None => true | Some l => nmem (t_obj t) l end.
+Definition oids_ok (o : option (list N)) (t : rtuple) : bool :=
+  match o with None => true | Some l => nmem (rt_obj t) l end.
 
-Definition rswu_pred (f : rswu_filter) (t : tuple) : bool :=
-  N.eqb (t_otype t) (sf_otype f) && N.eqb (t_rel t) (sf_rel f) && oids_ok (sf_oids f) t &&
-  conds_ok (sf_conds f) t && existsb (user_eqb (t_user t)) (sf_users f).
-Definition rswu (s : store) (f : rswu_filter) : list tuple := map obs (filter (rswu_pred f) s).
+Definition rswu_pred (f : rswu_filter) (t : rtuple) : bool :=
+  N.eqb (rt_otype t) (sf_otype f) && N.eqb (rt_rel t) (sf_rel f) && oids_ok (sf_oids f) t &&
+  conds_ok (sf_conds f) t && existsb (user_eqb (rt_user t)) (sf_users f).
+Definition rswu (s : store) (f : rswu_filter) : list rtuple := map obs (filter (rswu_pred f) s).
 
 (* stable insertion sort by object rank: slices.SortFunc on the contextual tuples (stable for up to
    12 elements — insertion sort; the oracle does not rely on stability beyond that), and the
    "results sorted ascending" contract of a datastore's ReadStartingWithUser *)
-Fixpoint ins_obj (a : tuple) (l : list tuple) : list tuple :=
+Fixpoint ins_obj (a : rtuple) (l : list rtuple) : list rtuple :=
   match l with
   | [] => [a]
-  | b :: l' => if N.ltb (t_obj b) (t_obj a) then b :: ins_obj a l' else a :: b :: l'
+  | b :: l' => if N.ltb (rt_obj b) (rt_obj a) then b :: ins_obj a l' else a :: b :: l'
   end.
-Definition sort_obj (l : list tuple) : list tuple := fold_right ins_obj [] l.
+Definition sort_obj (l : list rtuple) : list rtuple := fold_right ins_obj [] l.
 
-Definition rswu_sorted (s : store) (f : rswu_filter) : list tuple := sort_obj (rswu s f).
+Definition rswu_sorted (s : store) (f : rswu_filter) : list rtuple := sort_obj (rswu s f).
 
 (* ---- the combined reader, as coded ------------------------------------------------------- *)
 
 (* NewCombinedTupleReader: contextualTuplesOrderedByObjectID *)
-Definition ctx_ordered (ctx : list tuple) : list tuple := sort_obj (map obs ctx).
+Definition ctx_ordered (ctx : list rtuple) : list rtuple := sort_obj (map obs ctx).
 
 (* filterTuples(tuples, targetObject, targetRelation, targetUsers): string equality on the object
-   ("type:" never equals the object of a well-formed tuple), "" = any *)
-Definition ctx_obj_ok (o : ofilter) (t : tuple) : bool :=
+   ("type:" never equals the object of a well-formed rtuple), "" = any *)
+Definition ctx_obj_ok (o : ofilter) (t : rtuple) : bool :=
   match o with
   | OAny => true
   | OType _ => false
-  | OFull x => N.eqb (t_obj t) x
+  | OFull x => N.eqb (rt_obj t) x
   end.
-Definition ctx_users_ok (us : list user) (t : tuple) : bool := null us || existsb (user_eqb (t_user t)) us.
-Definition filter_tuples (ts : list tuple) (o : ofilter) (r : N) (us : list user) : list tuple :=
+Definition ctx_users_ok (us : list user) (t : rtuple) : bool := null us || existsb (user_eqb (rt_user t)) us.
+Definition filter_tuples (ts : list rtuple) (o : ofilter) (r : N) (us : list user) : list rtuple :=
   filter (fun t => ctx_obj_ok o t && rel_ok r t && ctx_users_ok us t) ts.
 
-(* Read: filter.User and filter.Conditions are not applied to the contextual tuples *)
-Definition combined_read (stored ctx : list tuple) (f : read_filter) : list tuple :=
-  filter_tuples (ctx_ordered ctx) (rf_obj f) (rf_rel f) [] ++ read stored f.
+(* Every operation is first given over the RESULT [under] of the wrapped reader (that is what the
+   wrapper computes, and what the correspondence run feeds with the observed result of the real
+   datastore), then instantiated with the plain store above.
+
+   Read: filter.User and filter.Conditions are not applied to the contextual tuples *)
+Definition combined_read_over (under : list rtuple) (ctx : list rtuple) (f : read_filter) : list rtuple :=
+  filter_tuples (ctx_ordered ctx) (rf_obj f) (rf_rel f) [] ++ under.
+Definition combined_read (stored ctx : list rtuple) (f : read_filter) : list rtuple :=
+  combined_read_over (read stored f) ctx f.
 
 (* ReadPage: "No reading from contextual tuples." *)
-Definition combined_read_page (stored ctx : list tuple) (f : read_filter) : list tuple := read_page stored f.
+Definition combined_read_page (stored ctx : list rtuple) (f : read_filter) : list rtuple := read_page stored f.
 
-(* ReadUserTuple: first matching contextual tuple wins; Conditions not applied to it *)
-Definition combined_read_user_tuple (stored ctx : list tuple) (k : key) (cs : list N) : option tuple :=
-  match filter (fun t => user_eqb (t_user t) (k_user k))
+(* ReadUserTuple: first matching contextual rtuple wins; Conditions not applied to it *)
+Definition combined_read_user_tuple_over (under : option rtuple) (ctx : list rtuple) (k : key) : option rtuple :=
+  match filter (fun t => user_eqb (rt_user t) (k_user k))
                (filter_tuples (ctx_ordered ctx) (OFull (k_obj k)) (k_rel k) [k_user k]) with
   | t :: _ => Some t
-  | [] => read_user_tuple stored k cs
+  | [] => under
   end.
+Definition combined_read_user_tuple (stored ctx : list rtuple) (k : key) (cs : list N) : option rtuple :=
+  combined_read_user_tuple_over (read_user_tuple stored k cs) ctx k.
 
 (* tupleMatchesAllowedUserTypeRestrictions *)
-Definition ctx_restr_ok (r : restriction) (t : tuple) : bool :=
+Definition ctx_restr_ok (r : urestr) (t : rtuple) : bool :=
   match r with
-  | RWild ty => u_wild (t_user t) && N.eqb (u_type (t_user t)) ty
-  | RRel ty rel => is_objrel (t_user t) && N.eqb (u_type (t_user t)) ty && N.eqb (u_rel (t_user t)) rel
-  | RBare _ => false
+  | UWild ty => u_wild (rt_user t) && N.eqb (u_type (rt_user t)) ty
+  | URel ty rel => is_objrel (rt_user t) && N.eqb (u_type (rt_user t)) ty && N.eqb (u_rel (rt_user t)) rel
+  | UBare _ => false
   end.
-Definition ctx_matches_restr (rs : list restriction) (t : tuple) : bool :=
-  is_userset_user (t_user t) && existsb (fun r => ctx_restr_ok r t) rs.
+Definition ctx_matches_restr (rs : list urestr) (t : rtuple) : bool :=
+  is_userset_user (rt_user t) && existsb (fun r => ctx_restr_ok r t) rs.
 
-Definition combined_read_userset_tuples (stored ctx : list tuple) (f : usersets_filter) : list tuple :=
-  filter (ctx_matches_restr (uf_restr f)) (filter_tuples (ctx_ordered ctx) (uf_obj f) (uf_rel f) []) ++
-  read_userset_tuples stored f.
+Definition combined_read_userset_tuples_over (under ctx : list rtuple) (f : usersets_filter) : list rtuple :=
+  filter (ctx_matches_restr (uf_restr f)) (filter_tuples (ctx_ordered ctx) (uf_obj f) (uf_rel f) []) ++ under.
+Definition combined_read_userset_tuples (stored ctx : list rtuple) (f : usersets_filter) : list rtuple :=
+  combined_read_userset_tuples_over (read_userset_tuples stored f) ctx f.
 
 (* ReadStartingWithUser: ObjectIDs and Conditions are not applied to the contextual tuples *)
-Definition ctx_rswu_part (ctx : list tuple) (f : rswu_filter) : list tuple :=
-  filter (fun t => N.eqb (t_otype t) (sf_otype f))
+Definition ctx_rswu_part (ctx : list rtuple) (f : rswu_filter) : list rtuple :=
+  filter (fun t => N.eqb (rt_otype t) (sf_otype f))
          (filter_tuples (ctx_ordered ctx) OAny (sf_rel f) (sf_users f)).
 
 (* storage.NewOrderedCombinedIterator(ObjectMapper(), iter1, iter2): smallest head first, iter1 on
    ties; a head whose object equals the last yielded object is discarded *)
-Fixpoint merge_obj (l1 : list tuple) : list tuple -> list tuple :=
-  fix aux (l2 : list tuple) : list tuple :=
+Fixpoint merge_obj (l1 : list rtuple) : list rtuple -> list rtuple :=
+  fix aux (l2 : list rtuple) : list rtuple :=
     match l1, l2 with
     | [], _ => l2
     | _, [] => l1
-    | a :: l1', b :: l2' => if N.ltb (t_obj b) (t_obj a) then b :: aux l2' else a :: merge_obj l1' l2
+    | a :: l1', b :: l2' => if N.ltb (rt_obj b) (rt_obj a) then b :: aux l2' else a :: merge_obj l1' l2
     end.
-Fixpoint dedup_from (last : option N) (l : list tuple) : list tuple :=
+Fixpoint dedup_from (last : option N) (l : list rtuple) : list rtuple :=
   match l with
   | [] => []
   | a :: l' =>
-      if match last with Some o => N.eqb o (t_obj a) | None => false end
+      if match last with Some o => N.eqb o (rt_obj a) | None => false end
       then dedup_from last l'
-      else a :: dedup_from (Some (t_obj a)) l'
+      else a :: dedup_from (Some (rt_obj a)) l'
   end.
 
-Definition combined_rswu (stored ctx : list tuple) (f : rswu_filter) (sorted : bool) : list tuple :=
+Definition combined_rswu_over (under ctx : list rtuple) (f : rswu_filter) (sorted : bool) : list rtuple :=
   if sorted
-  then dedup_from None (merge_obj (ctx_rswu_part ctx f) (rswu_sorted stored f))
-  else ctx_rswu_part ctx f ++ rswu stored f.
+  then dedup_from None (merge_obj (ctx_rswu_part ctx f) under)
+  else ctx_rswu_part ctx f ++ under.
+Definition combined_rswu (stored ctx : list rtuple) (f : rswu_filter) (sorted : bool) : list rtuple :=
+  combined_rswu_over (if sorted then rswu_sorted stored f else rswu stored f) ctx f sorted.
 
 (* ---- operations as one type: the reader is a function of (store, contextual tuples) ------- *)
 
@@ -224,7 +235,7 @@ Inductive op :=
   | OpUsersets (f : usersets_filter)
   | OpRSWU (f : rswu_filter) (sorted : bool).
 
-Inductive result := RList (l : list tuple) | ROpt (o : option tuple).
+Inductive result := RList (l : list rtuple) | ROpt (o : option rtuple).
 
 Definition plain_op (s : store) (o : op) : result :=
   match o with
@@ -238,7 +249,7 @@ Definition is_sorted_rswu (o : op) : bool := match o with OpRSWU _ true => true 
 
 (* one request: its contextual tuples and the read it performs; the new store state is returned
    explicitly — no operation of the reader writes *)
-Definition combined_op (s : store) (ctx : list tuple) (o : op) : store * result :=
+Definition combined_op (s : store) (ctx : list rtuple) (o : op) : store * result :=
   (s, match o with
       | OpRead f => RList (combined_read s ctx f)
       | OpReadPage f => RList (combined_read_page s ctx f)
@@ -247,7 +258,7 @@ Definition combined_op (s : store) (ctx : list tuple) (o : op) : store * result 
       | OpRSWU f sorted => RList (combined_rswu s ctx f sorted)
       end).
 
-Fixpoint run_ops (s : store) (h : list (list tuple * op)) : store * list result :=
+Fixpoint run_ops (s : store) (h : list (list rtuple * op)) : store * list result :=
   match h with
   | [] => (s, [])
   | (ctx, o) :: h' =>
@@ -265,9 +276,9 @@ Definition read_shape_ok (f : read_filter) : bool :=
   ofilter_exact (rf_obj f) && ufilter_any (rf_usr f) && null (rf_conds f).
 (* ReadUserTuple: a relation is named, no Conditions *)
 Definition rut_shape_ok (k : key) (cs : list N) : bool := negb (N.eqb (k_rel k) 0) && null cs.
-(* ReadUsersetTuples: at least one restriction, each type#relation (relation named) or type:*, no Conditions *)
-Definition restr_wf (r : restriction) : bool :=
-  match r with RRel _ rel => negb (N.eqb rel 0) | RWild _ => true | RBare _ => true end.
+(* ReadUsersetTuples: at least one urestr, each type#relation (relation named) or type:*, no Conditions *)
+Definition restr_wf (r : urestr) : bool :=
+  match r with URel _ rel => negb (N.eqb rel 0) | UWild _ => true | UBare _ => true end.
 Definition usersets_shape_ok (f : usersets_filter) : bool :=
   ofilter_exact (uf_obj f) && negb (null (uf_restr f)) && forallb restr_wf (uf_restr f) && null (uf_conds f).
 (* ReadStartingWithUser: relation named, at least one user, no ObjectIDs, no Conditions *)
@@ -277,53 +288,54 @@ Definition rswu_shape_ok (f : rswu_filter) : bool :=
 
 (* users: a typed wildcard has no relation part ("type:*#rel" is not a valid user) *)
 Definition wf_user (u : user) : bool := negb (u_wild u) || N.eqb (u_rel u) 0.
-Definition wf_tuples (l : list tuple) : bool := forallb (fun t => wf_user (t_user t)) l.
+Definition wf_tuples (l : list rtuple) : bool := forallb (fun t => wf_user (rt_user t)) l.
 
-Fixpoint keys_unique (s : list tuple) : bool :=
+Fixpoint keys_unique (s : list rtuple) : bool :=
   match s with
   | [] => true
   | t :: s' => negb (existsb (fun t' => key_eqb (key_of t') (key_of t)) s') && keys_unique s'
   end.
-(* no contextual tuple has the key of a stored tuple (writing it would be rejected as a duplicate) *)
-Definition disjoint_keys (stored ctx : list tuple) : bool :=
+(* no contextual rtuple has the key of a stored rtuple (writing it would be rejected as a duplicate) *)
+Definition disjoint_keys (stored ctx : list rtuple) : bool :=
   forallb (fun c => negb (existsb (fun t => key_eqb (key_of t) (key_of c)) stored)) ctx.
 
 (* no two tuples of a list are about the same object *)
-Fixpoint objs_unique (l : list tuple) : bool :=
+Fixpoint objs_unique (l : list rtuple) : bool :=
   match l with
   | [] => true
-  | t :: l' => negb (existsb (fun t' => N.eqb (t_obj t') (t_obj t)) l') && objs_unique l'
+  | t :: l' => negb (existsb (fun t' => N.eqb (rt_obj t') (rt_obj t)) l') && objs_unique l'
   end.
 
 (* what the code guarantees for a sorted combined read: strictly ascending objects, every yielded
-   tuple is a candidate of its object and comes from the contextual tuples whenever they have a
+   rtuple is a candidate of its object and comes from the contextual tuples whenever they have a
    candidate for that object; every candidate object is yielded *)
-Definition cands (l : list tuple) (o : N) : list tuple := filter (fun t => N.eqb (t_obj t) o) l.
+Definition cands (l : list rtuple) (o : N) : list rtuple := filter (fun t => N.eqb (rt_obj t) o) l.
 Fixpoint strictly_asc (l : list N) : bool :=
   match l with
   | a :: (b :: _) as l' => N.ltb a b && strictly_asc l'
   | _ => true
   end.
-Definition tuple_eqb (a b : tuple) : bool :=
-  N.eqb (t_obj a) (t_obj b) && N.eqb (t_otype a) (t_otype b) && N.eqb (t_rel a) (t_rel b) &&
-  user_eqb (t_user a) (t_user b) && N.eqb (t_cond a) (t_cond b) && N.eqb (t_ctx a) (t_ctx b).
-Definition tmem (t : tuple) (l : list tuple) : bool := existsb (tuple_eqb t) l.
-Definition sorted_result_ok (stored ctx : list tuple) (f : rswu_filter) (out : list tuple) : bool :=
+Definition tuple_eqb (a b : rtuple) : bool :=
+  N.eqb (rt_obj a) (rt_obj b) && N.eqb (rt_otype a) (rt_otype b) && N.eqb (rt_rel a) (rt_rel b) &&
+  user_eqb (rt_user a) (rt_user b) && N.eqb (rt_cond a) (rt_cond b) && N.eqb (rt_ctx a) (rt_ctx b).
+Definition tmem (t : rtuple) (l : list rtuple) : bool := existsb (tuple_eqb t) l.
+Definition sorted_result_ok_over (s ctx : list rtuple) (f : rswu_filter) (out : list rtuple) : bool :=
   let c := ctx_rswu_part ctx f in
-  let s := rswu stored f in
-  strictly_asc (map t_obj out) &&
-  forallb (fun t => match cands c (t_obj t) with
-                    | [] => tmem t (cands s (t_obj t))
+  strictly_asc (map rt_obj out) &&
+  forallb (fun t => match cands c (rt_obj t) with
+                    | [] => tmem t (cands s (rt_obj t))
                     | cc => tmem t cc
                     end) out &&
-  forallb (fun t => nmem (t_obj t) (map t_obj out)) (c ++ s).
+  forallb (fun t => nmem (rt_obj t) (map rt_obj out)) (c ++ s).
+Definition sorted_result_ok (stored ctx : list rtuple) (f : rswu_filter) (out : list rtuple) : bool :=
+  sorted_result_ok_over (rswu stored f) ctx f out.
 
 (* ---- the weighted-graph engine's per-request indexes (internal/check/request.go) ---------- *)
 
 (* insertSortedTuple(slice, t, sortKey): binary search for the first element whose key is >= the
    new key; nothing is inserted when that element has the same key.  On a sorted slice the binary
    search returns the first such position; modelled by a linear scan. *)
-Fixpoint insert_sorted (kf : tuple -> N) (l : list tuple) (t : tuple) : list tuple :=
+Fixpoint insert_sorted (kf : rtuple -> N) (l : list rtuple) (t : rtuple) : list rtuple :=
   match l with
   | [] => [t]
   | b :: l' =>
@@ -333,8 +345,8 @@ Fixpoint insert_sorted (kf : tuple -> N) (l : list tuple) (t : tuple) : list tup
 
 (* ctxTuplesByUserKey(user, relation, objectType); ctxTuplesByObjectKey(object, relation, userType)
    with userType = "type" or "type#relation" (a typed wildcard "type:*" is filed under "type") *)
-Definition by_user_key (t : tuple) : N * N * N := (u_str (t_user t), t_rel t, t_otype t).
-Definition by_object_key (t : tuple) : N * N * (N * N) := (t_obj t, t_rel t, (u_type (t_user t), u_rel (t_user t))).
+Definition by_user_key (t : rtuple) : N * N * N := (u_str (rt_user t), rt_rel t, rt_otype t).
+Definition by_object_key (t : rtuple) : N * N * (N * N) := (rt_obj t, rt_rel t, (u_type (rt_user t), u_rel (rt_user t))).
 Definition k3_eqb (a b : N * N * N) : bool :=
   let '(a1, a2, a3) := a in let '(b1, b2, b3) := b in N.eqb a1 b1 && N.eqb a2 b2 && N.eqb a3 b3.
 Definition k4_eqb (a b : N * N * (N * N)) : bool :=
@@ -342,10 +354,10 @@ Definition k4_eqb (a b : N * N * (N * N)) : bool :=
   N.eqb a1 b1 && N.eqb a2 b2 && N.eqb a3 b3 && N.eqb a4 b4.
 
 (* buildContextualTupleMaps: tuples are inserted in request order *)
-Definition index_by_user (ctx : list tuple) (k : N * N * N) : list tuple :=
-  fold_left (fun acc t => if k3_eqb (by_user_key t) k then insert_sorted t_obj acc t else acc) ctx [].
-Definition index_by_object (ctx : list tuple) (k : N * N * (N * N)) : list tuple :=
-  fold_left (fun acc t => if k4_eqb (by_object_key t) k then insert_sorted (fun x => u_str (t_user x)) acc t else acc) ctx [].
+Definition index_by_user (ctx : list rtuple) (k : N * N * N) : list rtuple :=
+  fold_left (fun acc t => if k3_eqb (by_user_key t) k then insert_sorted rt_obj acc t else acc) ctx [].
+Definition index_by_object (ctx : list rtuple) (k : N * N * (N * N)) : list rtuple :=
+  fold_left (fun acc t => if k4_eqb (by_object_key t) k then insert_sorted (fun x => u_str (rt_user x)) acc t else acc) ctx [].
 
 (* specificType: binary search of the by-user entry for the request's object *)
-Definition index_lookup_object (l : list tuple) (o : N) : option tuple := find (fun t => N.eqb (t_obj t) o) l.
+Definition index_lookup_object (l : list rtuple) (o : N) : option rtuple := find (fun t => N.eqb (rt_obj t) o) l.
